@@ -13,3 +13,10 @@ open Emboss.Fmt
 #print axioms C11_sanity_agrees
 #print axioms C11_sanity_reports_first_difference
 #print axioms C11_sanity_count_differs
+#print axioms C11_format_factors_blank
+#print axioms C11_idempotent_partial
+#print axioms C11_retokenize_partial
+#print axioms C11_row_retokenizes_partial
+#print axioms C11_retokenize_module_partial
+#print axioms C11_columnize_retokenizes_partial
+#print axioms C11_retokenize_checked
